@@ -438,6 +438,26 @@ def idx_expr(s):
 
 index = idx_expr(idx)
 
+# ------------------------------------------------------------------ calculate_heuristics skeleton (constants: bitflip_consts.py)
+ch = norm(fn_body(ps, r"pub fn calculate_heuristics\(\s*&mut self,\s*original_address: u64,\s*was_non_canonical: bool,\s*"
+                      r"context: Option<&MinidumpContext>,\s*\)\s*\{", "calculate_heuristics"))
+CH = (r"self\.details\.is_null = self\.address\.0 == 0; "
+      r"self\.details\.was_low = self\.details\.is_null && original_address <= LOW_ADDRESS_CUTOFF; "
+      r"self\.details\.was_non_canonical = was_non_canonical; "
+      r"self\.details\.nearby_registers = 0; self\.details\.poison_registers = false; "
+      r"if let Some\(context\) = context \{ let register_size = context\.register_size\(\); "
+      r"let is_repeated = match register_size \{ 2 => \|addr: u64\| addr == \(addr & 0xff\) \* 0x[0-9a-f]+, "
+      r"4 => \|addr: u64\| addr == \(addr & 0xff\) \* 0x[0-9a-f]+, 8 => \|addr: u64\| addr == \(addr & 0xff\) \* 0x[0-9a-f]+, "
+      r"other => \{ tracing::warn!\(\"unsupported register size: \{other\}\"\); \|_\| false \} \}; "
+      r"let should_calculate_nearby_registers = self\.address\.0 > LOW_ADDRESS_CUTOFF; "
+      r"for \(_, addr\) in context\.valid_registers\(\) \{ "
+      r"if should_calculate_nearby_registers && self\.address\.0\.abs_diff\(addr\) <= NEARBY_REGISTER_DISTANCE \{ self\.details\.nearby_registers \+= 1; \} "
+      r"if !self\.details\.poison_registers && is_repeated\(addr\) \{ match \(addr & 0xff\) as u8 \{ "
+      r"(?:\|? ?0x[0-9a-fA-F]{2} ?)+=> \{ self\.details\.poison_registers = true; \} _ => \(\), \} \} \} \} "
+      r"self\.confidence = Some\(self\.details\.confidence\(\)\);")
+if not re.fullmatch(CH, ch):
+    die("calculate_heuristics body changed; coq/C19/Model.v (heuristics) must be re-read against it:\n" + ch)
+
 # ------------------------------------------------------------------ emit
 L = []
 L.append("(* GENERATED by translate/c19_check.py from minidump-processor/src/{processor,process_state}.rs, minidump/src/system_info.rs, "
